@@ -564,7 +564,29 @@ func (d *DBFT[H]) onChangeView(msg ConsensusPayload[H]) {
 	)
 
 	d.ChangeViewPayloads[msg.ValidatorIndex()] = msg
-	d.checkChangeView(p.NewViewNumber())
+
+	// A request for a higher view is counted for every lower one as well (see
+	// checkChangeView), so it can complete the quorum of any view up to the
+	// requested one. Check the highest of them that has enough requests,
+	// otherwise the change is left pending until some stored ChangeView is
+	// delivered once more.
+	view := p.NewViewNumber()
+	for view > d.ViewNumber+1 && d.countChangeViews(view) < d.M() {
+		view--
+	}
+	d.checkChangeView(view)
+}
+
+// countChangeViews returns the number of nodes asking for the specified view
+// or any higher one.
+func (d *DBFT[H]) countChangeViews(view byte) int {
+	count := 0
+	for _, msg := range d.ChangeViewPayloads {
+		if msg != nil && msg.GetChangeView().NewViewNumber() >= view {
+			count++
+		}
+	}
+	return count
 }
 
 func (d *DBFT[H]) onPreCommit(msg ConsensusPayload[H]) {
